@@ -47,6 +47,16 @@ impl Quat {
         if len_sq <= EPSILON * EPSILON {
             return Self::identity();
         }
+        // `length_squared` overflows to +inf for |axis| >= ~1.8e19; `det_sqrt_f32(inf)`
+        // is 0, so the normalisation below would produce inf/NaN components (and trip
+        // the debug assertion in `Quat::new`, i.e. debug and release builds diverge).
+        // Rescale by 2^-66 first: the direction is unchanged and the squares stay finite.
+        let (axis, len_sq) = if len_sq.is_finite() {
+            (axis, len_sq)
+        } else {
+            let scaled = axis.scale(f32::from_bits(0x1e80_0000));
+            (scaled, scaled.length_squared())
+        };
         let len = crate::det_sqrt_f32(len_sq);
         let norm_axis = axis.scale(1.0 / len);
         let half = angle * 0.5;
@@ -96,7 +106,10 @@ impl Quat {
         let bz = other.component(2);
         let bw = other.component(3);
 
-        Self::new(
+        // Unchecked on purpose: products of finite components may overflow, and the
+        // result must be the same IEEE value in debug and release builds (the debug
+        // assertion in `Quat::new` would turn that into a build-dependent panic).
+        Self::new_unchecked(
             aw * bx + ax * bw + ay * bz - az * by,
             aw * by - ax * bz + ay * bw + az * bx,
             aw * bz + ax * by - ay * bx + az * bw,
